@@ -97,26 +97,32 @@ theorem varint_nonminimal_rejected (v : Nat) (rest : Bytes) :
     exactly when `rs` is canonical — 64-bit types strictly increasing, lengths within the input
     (they are the lengths of the values, and at most 65535 on the p2p path), values acceptable to
     the decoders of known types — and `b` is the encoding of `rs` with minimal BigSize type and
-    length fields (`encodeStream` = `Stream.Encode`). -/
-theorem stream_accept_iff_canonical (known : Known) (p2p : Bool) (b : Bytes) (rs : List Rec) :
+    length fields (`encodeStream` = `Stream.Encode`).
+    SIDE CONDITION `NoBigsize known`: no known record uses `DBigSize`.  Go's `Stream.decode` does
+    not check that a record decoder consumed exactly the declared length; every decoder of the
+    model's universe does so by construction except `bigsize`, which ignores the declared length
+    (HEAD).  With such a record the statement is FALSE: `bigsize_breaks_canonicity` below. -/
+theorem stream_accept_iff_canonical (known : Known) (p2p : Bool) (hnb : NoBigsize known)
+    (b : Bytes) (rs : List Rec) :
     decodeStream known p2p b = .ok rs ↔ (Canonical known p2p 0 rs ∧ b = encodeStream rs) := by
   unfold decodeStream
   constructor
   · intro h
-    have := decodeLoop_sound known p2p _ 0 false b rs (by unfold two64; decide) h
+    have := decodeLoop_sound known p2p hnb _ 0 false b rs (by unfold two64; decide) h
     simpa [lob] using this
   · rintro ⟨hc, rfl⟩
-    exact decodeLoop_complete known p2p rs _ 0 false (by simpa [lob] using hc) (Nat.lt_succ_self _)
+    exact decodeLoop_complete known p2p hnb rs _ 0 false (by simpa [lob] using hc)
+      (Nat.lt_succ_self _)
 
 /-- `stream_decode_encode`: a canonical record list survives encode-then-decode. -/
-theorem stream_decode_encode (known : Known) (p2p : Bool) (rs : List Rec)
+theorem stream_decode_encode (known : Known) (p2p : Bool) (hnb : NoBigsize known) (rs : List Rec)
     (h : Canonical known p2p 0 rs) : decodeStream known p2p (encodeStream rs) = .ok rs :=
-  (stream_accept_iff_canonical known p2p _ rs).mpr ⟨h, rfl⟩
+  (stream_accept_iff_canonical known p2p hnb _ rs).mpr ⟨h, rfl⟩
 
 /-- `stream_encode_decode`: decode-then-encode reproduces the accepted input byte for byte. -/
-theorem stream_encode_decode (known : Known) (p2p : Bool) (b : Bytes) (rs : List Rec)
-    (h : decodeStream known p2p b = .ok rs) : encodeStream rs = b :=
-  ((stream_accept_iff_canonical known p2p b rs).mp h).2.symm
+theorem stream_encode_decode (known : Known) (p2p : Bool) (hnb : NoBigsize known) (b : Bytes)
+    (rs : List Rec) (h : decodeStream known p2p b = .ok rs) : encodeStream rs = b :=
+  ((stream_accept_iff_canonical known p2p hnb b rs).mp h).2.symm
 
 /-- canonical lists have strictly increasing types, all at least `lo`. -/
 theorem canonical_types_increasing (known : Known) (p2p : Bool) :
@@ -143,9 +149,11 @@ theorem canonical_types_increasing (known : Known) (p2p : Bool) :
 
 /-- `stream_types_strictly_increasing`: an accepted stream has no duplicate and no out-of-order
     record. -/
-theorem stream_types_strictly_increasing (known : Known) (p2p : Bool) (b : Bytes) (rs : List Rec)
+theorem stream_types_strictly_increasing (known : Known) (p2p : Bool) (hnb : NoBigsize known)
+    (b : Bytes) (rs : List Rec)
     (h : decodeStream known p2p b = .ok rs) : (rs.map (·.1)).Pairwise (· < ·) :=
-  (canonical_types_increasing known p2p rs 0 ((stream_accept_iff_canonical known p2p b rs).mp h).1).1
+  (canonical_types_increasing known p2p rs 0
+    ((stream_accept_iff_canonical known p2p hnb b rs).mp h).1).1
 
 /-- `stream_max_type_is_last` (the `MaxUint64` overflow corner): a record of type `2^64 - 1` can
     only be the last record of a canonical list … -/
@@ -163,10 +171,11 @@ theorem stream_max_type_is_last (known : Known) (p2p : Bool) (lo : Nat) (v : Byt
 
 /-- … and, in terms of the loop state of `Stream.decode`: once `overflow` is set (type
     `MaxUint64` was read and `min` wrapped to 0) only the clean end of the stream is accepted. -/
-theorem stream_overflow_state (known : Known) (p2p : Bool) (fuel min : Nat) (b : Bytes)
+theorem stream_overflow_state (known : Known) (p2p : Bool) (hnb : NoBigsize known)
+    (fuel min : Nat) (b : Bytes)
     (rs : List Rec) (hmin : min < two64)
     (h : decodeLoop known p2p fuel min true b = .ok rs) : rs = [] ∧ b = [] := by
-  obtain ⟨hc, hb⟩ := decodeLoop_sound known p2p fuel min true b rs hmin h
+  obtain ⟨hc, hb⟩ := decodeLoop_sound known p2p hnb fuel min true b rs hmin h
   cases rs with
   | nil => exact ⟨rfl, by simpa [encodeStream] using hb⟩
   | cons r rs =>
@@ -176,9 +185,9 @@ theorem stream_overflow_state (known : Known) (p2p : Bool) (fuel min : Nat) (b :
     omega
 
 /-- `stream_p2p_bound`: on the p2p path no accepted record is longer than `MaxRecordSize`. -/
-theorem stream_p2p_bound (known : Known) (b : Bytes) (rs : List Rec)
+theorem stream_p2p_bound (known : Known) (hnb : NoBigsize known) (b : Bytes) (rs : List Rec)
     (h : decodeStream known true b = .ok rs) : ∀ r ∈ rs, r.2.length ≤ maxRecordSize := by
-  have hc := ((stream_accept_iff_canonical known true b rs).mp h).1
+  have hc := ((stream_accept_iff_canonical known true hnb b rs).mp h).1
   have gen : ∀ (rs : List Rec) (lo : Nat), Canonical known true lo rs →
       ∀ r ∈ rs, r.2.length ≤ maxRecordSize := by
     intro rs
@@ -194,10 +203,10 @@ theorem stream_p2p_bound (known : Known) (b : Bytes) (rs : List Rec)
 
 /-- `stream_within_input`: the records of an accepted stream tile the input exactly: the input
     length is the sum over the records of (BigSize type) + (BigSize length) + value length. -/
-theorem stream_within_input (known : Known) (p2p : Bool) (b : Bytes) (rs : List Rec)
-    (h : decodeStream known p2p b = .ok rs) :
+theorem stream_within_input (known : Known) (p2p : Bool) (hnb : NoBigsize known) (b : Bytes)
+    (rs : List Rec) (h : decodeStream known p2p b = .ok rs) :
     b.length = (rs.map fun r => varIntSize r.1 + varIntSize r.2.length + r.2.length).sum := by
-  rw [← stream_encode_decode known p2p b rs h]
+  rw [← stream_encode_decode known p2p hnb b rs h]
   clear h
   induction rs with
   | nil => rfl
@@ -206,14 +215,131 @@ theorem stream_within_input (known : Known) (p2p : Bool) (b : Bytes) (rs : List 
       List.sum_cons, ih]
 
 /-- `stream_encoding_unique`: two canonical record lists with the same encoding are equal. -/
-theorem stream_encoding_unique (known : Known) (p2p : Bool) (rs rs' : List Rec)
+theorem stream_encoding_unique (known : Known) (p2p : Bool) (hnb : NoBigsize known)
+    (rs rs' : List Rec)
     (h : Canonical known p2p 0 rs) (h' : Canonical known p2p 0 rs')
     (he : encodeStream rs = encodeStream rs') : rs = rs' := by
-  have h1 := stream_decode_encode known p2p rs h
-  have h2 := stream_decode_encode known p2p rs' h'
+  have h1 := stream_decode_encode known p2p hnb rs h
+  have h2 := stream_decode_encode known p2p hnb rs' h'
   rw [he, h2] at h1
   cases h1
   rfl
+
+/-! ## the side condition: `DBigSize` records -/
+
+/-- the side condition is decidable from the kinds: it holds when no known kind is `bigsize`
+    (in particular for the empty set of known records, i.e. pure pass-through parsing). -/
+theorem noBigsize_of_all (known : Known) (h : ∀ p ∈ known, p.2.isBigsize = false) :
+    NoBigsize known := by
+  intro t
+  induction known with
+  | nil => rfl
+  | cons p ps ih =>
+    obtain ⟨t', k⟩ := p
+    have ih' := ih (fun q hq => h q (by simp [hq]))
+    unfold isBigsizeFor at ih' ⊢
+    simp only [lookupKind]
+    by_cases htt : t' = t
+    · simp only [htt, if_true]
+      exact h (t', k) (by simp)
+    · simp only [htt, if_false]
+      exact ih'
+
+theorem noBigsize_nil : NoBigsize [] := noBigsize_of_all [] (by simp)
+
+/-- `bigsize_breaks_canonicity`: the side condition is necessary.  With record 0 known as a
+    BigSize record (HEAD's `DBigSize`, which ignores the declared length) the stream
+    `00 06 fd01d6 03 01 cb` — declared length 6, the BigSize takes 3 bytes — is ACCEPTED on both
+    paths as v = 470 plus a phantom record 3, and re-encoding the accepted records does not
+    reproduce the input (finding F-tlv-bigsize-record-length-ignored). -/
+theorem bigsize_breaks_canonicity :
+    let b : Bytes := [0x00, 0x06, 0xfd, 0x01, 0xd6, 0x03, 0x01, 0xcb]
+    let rs : List Rec := [(0, [0xfd, 0x01, 0xd6]), (3, [0xcb])]
+    decodeStream [(0, .bigsize)] false b = .ok rs ∧
+    decodeStream [(0, .bigsize)] true b = .ok rs ∧
+    encodeStream rs ≠ b ∧
+    decodeStream [] true b = .ok [(0, [0xfd, 0x01, 0xd6, 0x03, 0x01, 0xcb])] := by
+  refine ⟨?_, ?_, ?_, ?_⟩
+  · simp [decodeStream, decodeLoop, readVarInt, readVarPayload, beNat, isBigsizeFor, lookupKind,
+      Kind.isBigsize, lenOkFor, valOkFor, writeVarInt, beBytes, maxRecordSize, two64]
+  · simp [decodeStream, decodeLoop, readVarInt, readVarPayload, beNat, isBigsizeFor, lookupKind,
+      Kind.isBigsize, lenOkFor, valOkFor, writeVarInt, beBytes, maxRecordSize, two64]
+  · simp [encodeStream, encodeRec, writeVarInt]
+  · simp [decodeStream, decodeLoop, readVarInt, isBigsizeFor, lookupKind, lenOkFor, valOkFor,
+      maxRecordSize, two64]
+
+/-- What still holds WITH BigSize records (any set of known records): accepted types are 64-bit
+    and strictly increasing — duplicates and reordering are never accepted. -/
+theorem stream_types_increasing_any_kind (known : Known) (p2p : Bool) :
+    ∀ (fuel min : Nat) (ov : Bool) (b : Bytes) (rs : List Rec), min < two64 →
+      decodeLoop known p2p fuel min ov b = .ok rs →
+      (rs.map (·.1)).Pairwise (· < ·) ∧ ∀ t ∈ rs.map (·.1), lob min ov ≤ t ∧ t < two64 := by
+  intro fuel
+  induction fuel with
+  | zero => intro min ov b rs _ h; simp [decodeLoop] at h
+  | succ fuel ih =>
+    intro min ov b rs hmin h
+    unfold decodeLoop at h
+    split at h
+    · cases h; simp
+    · cases h
+    · rename_i typ r1 hr1
+      split at h
+      · cases h
+      · rename_i hchk
+        have ht64 := (readVarInt_ok hr1).1
+        have hmin' : (typ + 1) % two64 < two64 := Nat.mod_lt _ (by unfold two64; decide)
+        have hov : ov = false := by
+          cases ov
+          · rfl
+          · simp at hchk
+        have hle : min ≤ typ := by
+          subst hov
+          simp at hchk
+          exact hchk
+        -- both branches end in the same recursive call shape
+        have key : ∀ (r : Bytes) (v : Bytes) (rs' : List Rec),
+            decodeLoop known p2p fuel ((typ + 1) % two64) (typ == two64 - 1) r = .ok rs' →
+            ((((typ, v) :: rs').map (·.1)).Pairwise (· < ·) ∧
+              ∀ t ∈ ((typ, v) :: rs').map (·.1), lob min ov ≤ t ∧ t < two64) := by
+          intro r v rs' hrec
+          obtain ⟨hp, hall⟩ := ih _ _ _ _ hmin' hrec
+          rw [lob_next ht64] at hall
+          refine ⟨?_, ?_⟩
+          · simp only [List.map_cons, List.pairwise_cons]
+            exact ⟨fun t ht => by have := (hall t ht).1; omega, hp⟩
+          · intro t ht
+            simp only [List.map_cons, List.mem_cons] at ht
+            rcases ht with rfl | ht
+            · subst hov; exact ⟨by simpa [lob] using hle, ht64⟩
+            · have := hall t ht
+              subst hov
+              simp only [lob, Bool.false_eq_true, if_false]
+              omega
+        split at h
+        · cases h
+        · split at h
+          · cases h
+          · split at h
+            · -- bigsize branch
+              split at h
+              · cases h
+              · split at h
+                · cases h
+                · rename_i rs' hrec
+                  cases h
+                  exact key _ _ _ hrec
+            · split at h
+              · cases h
+              · split at h
+                · cases h
+                · split at h
+                  · cases h
+                  · split at h
+                    · cases h
+                    · rename_i rs' hrec
+                      cases h
+                      exact key _ _ _ hrec
 
 /-! ## non-vacuity -/
 
@@ -227,6 +353,7 @@ example : Canonical [(1, .fixed 2)] true 0
 
 example : decodeStream [(1, .fixed 2)] true [1, 2, 0xaa, 0xbb, 3, 0] = .ok [(1, [0xaa, 0xbb]), (3, [])] := by
   rfl
+example : NoBigsize [(1, .fixed 2), (4, .varBytes)] := noBigsize_of_all _ (by simp [Kind.isBigsize])
 example : decodeStream [] true [3, 0, 1, 0] = .error .streamNotCanonical := by rfl
 example : readVarInt [0xfd, 0x01, 0x00, 0x55] = .ok (256, [0x55]) := by
   simp [readVarInt, readVarPayload, beNat]
